@@ -5,8 +5,9 @@
 (*   ChooseFirst/Second  every two-field dtype over a 6-type sub-catalogue x 4 shapes     *)
 (*                       x byte orders (mixed orders included)                            *)
 (*   SimAddField/SimDone random 3..MaxFields-field dtypes (tlc -simulate)                 *)
-(*   ChooseIO / SimIO    writer entry point, row count in RowCounts, header id            *)
-(*                       (crossed when CrossIO, else chosen by a covering rule)           *)
+(*   ChooseIO / SimIO    writer entry point, row count in RowCounts, memory layout of the  *)
+(*                       array argument, header id (crossed when CrossIO - layouts for    *)
+(*                       the one-field dtypes -, else chosen by a covering rule)          *)
 (*  Behaviour (checked, not exported): DoWrite, then DoRead through every reading entry   *)
 (*  point in turn, then Rewrite (another entry point overwrites the path with a different *)
 (*  table) and DoRead again.  Invariants: ReadInv, SizeInv, CrossEntry, LastWriteWins.    *)
@@ -36,7 +37,8 @@ OrdersOf(k) == IF HasOrder(k[1], k[2]) THEN {"lt", "gt"} ELSE {"na"}
 Fld(nm, k, sh, o) == [name |-> nm, kind |-> k[1], size |-> k[2], shape |-> sh, order |-> o]
 Pick(s, i) == s[(i % Len(s)) + 1]
 
-NoCase == [src |-> "none", writer |-> "none", descr |-> <<>>, nrows |-> 0, hid |-> 0]
+LayoutSeq == <<"contig", "step2", "reversed", "column2d", "zerod">>
+NoCase == [src |-> "none", writer |-> "none", layout |-> "contig", descr |-> <<>>, nrows |-> 0, hid |-> 0]
 NoTable == [descr |-> <<>>, rows |-> <<>>]
 
 Init == /\ BRInit
@@ -81,20 +83,26 @@ SimDone ==
 Mix == VSum([i \in DOMAIN d |-> i * (d[i].size + 3 * Len(d[i].shape) + (IF d[i].order = "gt" THEN 7 ELSE 0)
                                     + (IF d[i].kind \in {"f", "c"} THEN 11 ELSE IF d[i].kind = "S" THEN 5 ELSE 0))])
 
-MkCase(w, n, h) == [src |-> src, writer |-> w, descr |-> d, nrows |-> n,
-                    hid |-> IF w \in RawWriters THEN 0 ELSE h]
+\* a 0-d array has one row
+Lay(n, l) == IF l = "zerod" /\ n # 1 THEN "contig" ELSE l
+MkCase(w, n, h, l) == [src |-> src, writer |-> w, layout |-> Lay(n, l), descr |-> d, nrows |-> n,
+                       hid |-> IF w \in RawWriters THEN 0 ELSE h]
 
+\* CrossIO: writer x row count crossed for every dtype, and x memory layout for the one-field dtypes
 ChooseIO ==
     /\ phase = "descr" /\ src # "sim"
     /\ IF CrossIO
        THEN \E wi \in DOMAIN WriterSeq, ri \in DOMAIN RowSeq :
-               c' = MkCase(WriterSeq[wi], RowSeq[ri], (Mix + 5 * wi + 3 * ri) % NHdr)
-       ELSE c' = MkCase(Pick(WriterSeq, Mix), Pick(RowSeq, Mix \div 2 + Len(d)), (Mix \div 3) % NHdr)
+            \E li \in (IF src = "single" THEN DOMAIN LayoutSeq ELSE {((Mix + wi + 2 * ri) % Len(LayoutSeq)) + 1}) :
+               c' = MkCase(WriterSeq[wi], RowSeq[ri], (Mix + 5 * wi + 3 * ri) % NHdr, LayoutSeq[li])
+       ELSE \E li \in {(Mix % Len(LayoutSeq)) + 1, ((Mix \div 5 + Len(d)) % Len(LayoutSeq)) + 1} :
+               c' = MkCase(Pick(WriterSeq, Mix + li), Pick(RowSeq, Mix \div 2 + Len(d) + li), (Mix \div 3 + li) % NHdr, LayoutSeq[li])
     /\ phase' = "case" /\ UNCHANGED <<file, res, src, d, gen, ridx, seen, last>>
 
 SimIO ==
     /\ phase = "descr" /\ src = "sim"
-    /\ \E wi \in DOMAIN WriterSeq, ri \in DOMAIN RowSeq, h \in 0..(NHdr - 1) : c' = MkCase(WriterSeq[wi], RowSeq[ri], h)
+    /\ \E wi \in DOMAIN WriterSeq, ri \in DOMAIN RowSeq, h \in 0..(NHdr - 1), li \in DOMAIN LayoutSeq :
+          c' = MkCase(WriterSeq[wi], RowSeq[ri], h, LayoutSeq[li])
     /\ phase' = "case" /\ UNCHANGED <<file, res, src, d, gen, ridx, seen, last>>
 
 \* ---- the behaviour of one case -----------------------------------------------------------------------
@@ -104,7 +112,7 @@ HLen(cc)   == IF cc.writer \in RawWriters THEN 0 ELSE 97 + 3 * cc.hid
 
 DoWrite ==
     /\ phase = "case"
-    /\ Write(c.writer, Table(c), HdrEnts(c), HLen(c))
+    /\ Write(c.writer, Table(c), HdrEnts(c), HLen(c), c.layout)
     /\ phase' = "written" /\ gen' = 1 /\ ridx' = 0 /\ seen' = {} /\ last' = Table(c)
     /\ UNCHANGED <<src, d, c>>
 
@@ -121,7 +129,7 @@ Rewrite ==
     /\ phase = "written" /\ ridx = Len(ReaderSeq) /\ gen = 1
     /\ LET w == Pick(WriterSeq, Mix + c.nrows + 1)
            t == [descr |-> Reversed(c.descr), rows |-> Reversed(Table(c).rows) \o <<c.nrows + 1>>]
-       IN /\ Write(w, t, <<>>, IF w \in RawWriters THEN 0 ELSE 61)
+       IN /\ Write(w, t, <<>>, IF w \in RawWriters THEN 0 ELSE 61, Pick(<<"reversed", "step2", "column2d", "contig">>, Mix))
           /\ last' = t
     /\ gen' = 2 /\ ridx' = 0 /\ seen' = {}
     /\ UNCHANGED <<phase, src, d, c>>
@@ -141,7 +149,10 @@ Spec == Init /\ [][Next]_vars
 \* cross-entry agreement: whatever entry point wrote, every reader that is constrained returned the same table
 CrossEntry == Cardinality(seen) <= 1 /\ (\A s \in seen : s = last)
 LastWriteWins == phase = "written" => (file.descr = last.descr /\ file.rows = last.rows)
-CasesInScope == phase = "case" => (DescrOK(c.descr) /\ c.writer \in Writers /\ c.nrows \in RowCounts /\ c.hid \in 0..(NHdr - 1))
+CasesInScope == phase = "case" => (/\ DescrOK(c.descr) /\ c.writer \in Writers /\ c.nrows \in RowCounts /\ c.hid \in 0..(NHdr - 1)
+                                   /\ c.layout \in Layouts /\ (c.layout = "zerod" => c.nrows = 1))
+\* the file written does not depend on the memory layout of the array argument
+LayoutIndependent == phase = "written" => (file.rows = last.rows /\ file.descr = last.descr /\ Len(file.rows) = Len(last.rows))
 
 \* ---- export -------------------------------------------------------------------------------------------------
 Export == (DoExport /\ phase = "case") => PrintT(<<"CASE", ToJson(c)>>)
